@@ -18,7 +18,7 @@ from ..solver_model import solver_function
 from .C10 import parser_line_loop
 from .C16 import Summaries, check_accessor, discover_accessors
 
-TECHNIQUE = ("static analysis: sibling cross-check of the two consumers of the shared parser (injected-name closure), agreement of the code emitters by term evaluation (variable vector and equation list as concatenated maps over the parser lists, iteration canonicalised to index ranges), must-pass-through of the list builders before the file writer, symbolic per-path evaluation of the column sequence, alias analysis of the flattened table renderer, three-valued NaN walk of the template's stop test")
+TECHNIQUE = ("static analysis: sibling cross-check of the two consumers of the shared parser (injected-name closure), agreement of the code emitters by term evaluation (variable vector and equation list as concatenated maps over the parser lists, iteration canonicalised to index ranges), must-pass-through of the list builders before the file writer, symbolic per-path evaluation of the column sequence, alias analysis of the flattened table renderer, three-valued NaN walk of the template's stop test; statement order of the generated sweep; the class-exclusivity clauses of C14.R2 recorded as R1")
 EXPLANATION = (
     'Extracts the identifiers the shared parser injects by itself and checks that each consumer binds them (the in-process '
     'solver defines k as an exogenous series; the generator must put it into its template scope). Checks that all emitters '
@@ -346,8 +346,14 @@ def run(prog, check):
     lines = tmpl.value.replace('$$$', '"""').split('\n')
     out_lines, prev_indent = [], ''
     for ln in lines:
-        if _re.match(r'^\s*(<[A-Z_]+>|VAR_DECLARATION|ITERATOR)\s*$', ln):
-            out_lines.append(prev_indent + 'pass')
+        m_ph = _re.match(r'^\s*(<[A-Z_]+>|VAR_DECLARATION|ITERATOR)\s*$', ln)
+        if m_ph:
+            # a block of generated statements: stands as one statement (named after the placeholder) at the depth of its surroundings
+            ind_ = prev_indent + ('    ' if out_lines and out_lines[-1].rstrip().endswith(':') else '')
+            if m_ph.group(1) in ('VAR_DECLARATION', 'ITERATOR'):
+                out_lines.append(ind_ + 'pass')
+            else:
+                out_lines.append(ind_ + 'PLACEHOLDER_' + m_ph.group(1).strip('<>'))
             continue
         ln = _re.sub(r'<[A-Z_]+>', 'PLACEHOLDER', ln).replace('MAXTIME', '0')
         if ln.strip():
@@ -418,6 +424,30 @@ def run(prog, check):
                      'the generated sweep measures the change between the vector before and after Iterator()' if ok_ord else
                      'in the generated sweep the old vector is overwritten (or the wrong vectors are compared) before the error is taken: the error '
                      'is zero after one sweep and unconverged values are stored', 'any simultaneous block: Y = C + G is violated at the stored values')
+    # the period counter is advanced before the generated statements read the lags (STEP - 1) and the exogenous values (STEP)
+    if runstep:
+        body_ = runstep[0].body
+        i_step = [i_ for i_, st_ in enumerate(body_) if isinstance(st_, ast.AugAssign) and isinstance(st_.target, ast.Attribute) and
+                  st_.target.attr == 'STEP']
+        i_pack = [i_ for i_, st_ in enumerate(body_) if isinstance(st_, ast.Expr) and isinstance(st_.value, ast.Name) and
+                  st_.value.id == 'PLACEHOLDER_PACK_VARS']
+        if i_step and i_pack:
+            ok_st = i_step[0] < i_pack[0]
+            check.ob('C20.R2', '%s::template-step-advanced-before-inputs-are-read' % gen_cls.key, ok_st, '%s:%d' % (gen_cls.module.rel, tmpl.lineno),
+                     'self.STEP is advanced before the lags and exogenous values of the period are read' if ok_st else
+                     'the generated step reads its lags and exogenous values before self.STEP is advanced: they are those of the previous period',
+                     'any block with a lag or a time-varying exogenous path, from the second period on')
+    # the table of the generated module lists the non-lagged variables: the list handed to BaseSolver is that collection
+    for gf_ in gen_cls.methods.values():
+        for c_ in ast.walk(gf_.node):
+            if isinstance(c_, ast.Call) and call_name(c_) == 'replace' and len(c_.args) == 2 and isinstance(c_.args[0], ast.Constant) and \
+                    c_.args[0].value == '<VARIABLE_LIST>':
+                src_ = [x_.attr for x_ in ast.walk(c_.args[1]) if isinstance(x_, ast.Attribute) and isinstance(x_.value, ast.Name) and x_.value.id == 'self']
+                ok_v = src_ == ['NonLagged']
+                check.ob('C20.R2', '%s::variable-list-is-the-non-lagged-variables' % gf_.key, ok_v, '%s:%d' % (gf_.module.rel, c_.lineno),
+                         'the generated module is given self.NonLagged as its variable list' if ok_v else
+                         'the generated module is given `%s` as its variable list: the table lists other columns than the non-lagged variables'
+                         % unparse(c_.args[1]), 'a block with a lagged variable: LAG_x must not be a column, every other variable once')
     # ---- R4: the generated sweep cannot report a period whose error measure is NaN (same rule as C02.R1) ------------
     from .C02 import tv, mentions
     if runstep:
@@ -454,7 +484,7 @@ def run(prog, check):
         from . import C14 as _c14
         b14 = Borrowed(check, lambda rule, key: rule == 'C14.R2' and ('one-class' in key or 'class-has-a-store' in key), 'C20.R1',
                        'a block that states its Err_Tolerance or MaxTime: the generated module must still import and run')
-        _c14.run(prog, b14)
+        b14.run_lender(_c14, prog)
     check.floor('C20.R4', 1)
     # ---- R3 ----------------------------------------------------------------------------------------
     acc = discover_accessors(prog)
